@@ -20,7 +20,8 @@ def TypeOK : Validator → JVal → Prop
   | .listStr, v => ∃ xs, v = .arr xs ∧ ∀ x ∈ xs, ∃ s, x = .str s
   | .jwk, v => ∃ kvs, v = .obj kvs
   | .unsupported, _ => False
-  | .choices cs, v => (∃ s, v = .str s ∧ s ∈ cs) ∨ (∃ xs, v = .arr xs ∧ ∀ x ∈ xs, ∃ s, x = .str s ∧ s ∈ cs)
+  | .choices cs false, v => ∃ s, v = .str s ∧ s ∈ cs
+  | .choices cs true, v => ∃ xs, v = .arr xs ∧ ∀ x ∈ xs, ∃ s, x = .str s ∧ s ∈ cs
   | .custom _, _ => True
 
 theorem isStr_iff (v : JVal) : v.isStr = true ↔ ∃ s, v = .str s := by cases v <;> simp [JVal.isStr]
@@ -37,8 +38,8 @@ theorem validator_iff (val : Validator) (v : JVal) : val.check v = .ok () ↔ Ty
     cases v <;> simp [Validator.check, TypeOK, List.all_eq_true, isStr_iff]
   | jwk => cases v <;> simp [Validator.check, TypeOK, JVal.isDict]
   | unsupported => simp [Validator.check, TypeOK]
-  | choices cs =>
-    cases v <;> simp [Validator.check, TypeOK, List.all_eq_true, pyInList_strs]
+  | choices cs m =>
+    cases m <;> cases v <;> simp [Validator.check, TypeOK, List.all_eq_true, pyInList_strs]
   | custom n => simp [Validator.check, TypeOK]
 
 /-- Declarative acceptance condition for a JWS header object. -/
